@@ -270,7 +270,22 @@ func (h *Hub) run() {
 					go replyOfflineTopicGetSub(msg.sess, msg)
 				}
 			} else if msg.Set != nil {
-				go replyOfflineTopicSetSub(msg.sess, msg)
+				if dst := h.topicGet(msg.RcptTo); dst != nil && !dst.isProxy {
+					// The topic is loaded: it must process the update itself, otherwise its cached
+					// subscription data gets out of sync with the database.
+					if dst.isInactive() {
+						msg.sess.queueOut(ErrLockedReply(msg, types.TimeNow()))
+					} else {
+						select {
+						case dst.meta <- msg:
+						default:
+							msg.sess.queueOut(ErrServiceUnavailableReply(msg, types.TimeNow()))
+							logs.Err.Println("hub: topic's meta queue is full", dst.name)
+						}
+					}
+				} else {
+					go replyOfflineTopicSetSub(msg.sess, msg)
+				}
 			}
 
 		case status := <-h.userStatus:
